@@ -1,7 +1,7 @@
 #!/bin/sh
 # dev helper: apply each kept seeded change to /repo, run the check of the property it breaks, undo it, record the outcome
 cd "$(dirname "$0")/.."
-for d in seeded/*/; do
+for d in ${SEEDS:-seeded/*/}; do
   id=$(basename "$d"); prop=${id%%-*}
   [ -f "$d/patch.diff" ] || continue
   git -C /repo apply "$(pwd)/$d/patch.diff" || { echo "$id: patch does not apply"; continue; }
